@@ -7,6 +7,11 @@ HOOK_COMMITS = subprocess.run(
     capture_output=True, text=True).stdout.strip().splitlines()
 
 CHECKS = {
+ "C06": dict(
+   text="Seeded deterministic simulation of the real streams engine with a Queue processor on a fixed-window quota: the 100 ms processing loop, the TTL watcher and the removal goroutines are the engine's own and run on the fake clock. Arrivals with priorities, clock targets on/next to processing ticks, window ends and TTL expiries, stalls of request goroutines at instrumented lock sites, context cancel at a random step. Oracles: R1 exactly one verdict within TTL + 1 s once stalls stop, R2 grants per quota window <= max, R3 priority then FIFO order at every grant (engine push timestamps), R4 waiters <= queue_size at quiescent points, R5 shutdown releases waiters and the process survives (a crash of the child is a violation). Sampling, not proof.",
+   design_ref="DESIGN.md section 4 C06",
+   note="Trusted: synctest fake clock; verifhook decision events; TimerSlack (+1 ms on the watcher's zero wait under the verif tag); slack 1 s; requests entering the queue after the drain are outside the property; Go's select/map-iteration randomness is not controlled (oracles are insensitive to it).",
+   technique="deterministic simulation: seeded arrival/clock/stall/shutdown schedules over the real queue goroutines with history oracles; child-process crash detection"),
  "C02": dict(
    text="Seeded deterministic simulation of the real streams engine with a concurrency quota (optional parent quota, optional second flow answering early after admission), its GC goroutine on the fake clock and a fake cluster liveness. Histories of request / response / proxy-error / abandon / duplicate-end / instance-left events with clock targets around expiry and expiry+GC, single or in concurrent groups interleaved at instrumented lock sites. Oracles: R1 certain holders <= max at every admission (sequence-number based), R2 capacity probes at quiescent points bound free slots from both sides (leak / double release), R3 full capacity after everything ended or expired. Sampling, not proof.",
    design_ref="DESIGN.md section 4 C02",
